@@ -111,14 +111,32 @@ func (v *variablesMappingVisitor) LeaveDocument(operation, definition *ast.Docum
 }
 
 func (v *variablesMappingVisitor) EnterArgument(ref int) {
-	if v.operation.Arguments[ref].Value.Kind != ast.ValueKindVariable {
-		return
-	}
 	if len(v.Ancestors) == 0 || v.Ancestors[0].Kind != ast.NodeKindOperationDefinition {
 		return
 	}
+	v.collectVariables(v.operation.Arguments[ref].Value)
+}
 
-	varValueRef := v.operation.Arguments[ref].Value.Ref
+// collectVariables collects the variable the value is, or the variables it contains: list and object
+// values with variables inside are never extracted from directive arguments, so their variables
+// have to be renamed like every other one - left alone, they keep their name, which may be the
+// canonical name handed to another variable, or a name that no longer has a definition.
+func (v *variablesMappingVisitor) collectVariables(value ast.Value) {
+	switch value.Kind {
+	case ast.ValueKindVariable:
+		v.collectVariable(value.Ref)
+	case ast.ValueKindList:
+		for _, valueRef := range v.operation.ListValues[value.Ref].Refs {
+			v.collectVariables(v.operation.Value(valueRef))
+		}
+	case ast.ValueKindObject:
+		for _, fieldRef := range v.operation.ObjectValues[value.Ref].Refs {
+			v.collectVariables(v.operation.ObjectFieldValue(fieldRef))
+		}
+	}
+}
+
+func (v *variablesMappingVisitor) collectVariable(varValueRef int) {
 	varNameBytes := v.operation.VariableValueNameBytes(varValueRef)
 
 	variableDefinitionRef, exists := v.operation.VariableDefinitionByNameAndOperation(v.operationRef, varNameBytes)
